@@ -1111,6 +1111,16 @@ def check_counter(ctx, tu):
                       'cannot identify the counter' % len(cands), tu.fn_loc(finc))
         return 0, set()
     cnt = cands[0]
+    WRAPPER[id(tu)] = None
+    if not ATOMIC_INT.match(cnt['ct']) and not PLAIN_INT.match(cnt['ct']):
+        # the counter may be wrapped: a class (typically a private nested one) whose only data member is the atomic; its member
+        # functions called on this->counter are followed like private helpers of RefCountedObject itself
+        wrec = tu.records_by_type.get(cnt['ct'].replace('const ', '').strip())
+        if wrec is not None and len(wrec.get('fields', [])) == 1 and not wrec.get('bases'):
+            WRAPPER[id(tu)] = {'field': cnt['id'], 'rec': wrec['q'], 'recid': wrec['id'], 'name': cnt['name']}
+            inner = dict(wrec['fields'][0])
+            inner['name'] = '%s.%s' % (cnt['name'], inner['name'])
+            cnt = inner
     counter_ids = {cnt['id']}
     file = norm_file(tu.fn_file(finc))
     # -- special members (W-C08-1)
@@ -1162,6 +1172,26 @@ def check_counter(ctx, tu):
         val = 'missing'
         for blk in tu.cfg(f).blocks.values():
             for e in blk.el:
+                wr = WRAPPER.get(id(tu))
+                if e[0] == 'I' and wr and e[2] == wr['field']:
+                    wi = tu.strip(tu.node(e[1])) if tu.node(e[1]) is not None else None
+                    if wi is not None and wi.get('kind') == 'CXXDefaultInitExpr':
+                        fd_ = tu.node(e[2])
+                        wi = tu.strip(init_exprs(tu, fd_)[-1]) if fd_ is not None and init_exprs(tu, fd_) else None
+                    wc = tu.callee_fn(wi) if wi is not None and wi.get('kind') in ('CXXConstructExpr', 'CXXTemporaryObjectExpr') else None
+                    val = None
+                    if wc is not None and tu.cfg(wc) is not None:
+                        val = 'missing'
+                        for wb in tu.cfg(wc).blocks.values():
+                            for we in wb.el:
+                                if we[0] == 'I' and we[2] in counter_ids:
+                                    wini = tu.node(we[1])
+                                    if wini is not None and wini.get('kind') == 'CXXDefaultInitExpr':
+                                        fd_ = tu.node(we[2])
+                                        wini = init_exprs(tu, fd_)[-1] if fd_ is not None and init_exprs(tu, fd_) else None
+                                    val = const_init(tu, wini)
+                                    if val is None and wini is not None and tu.kids(wi):
+                                        val = None      # depends on constructor arguments: not a constant here
                 if e[0] == 'I' and e[2] in counter_ids:
                     init = tu.node(e[1])
                     if init is not None and init.get('kind') == 'CXXDefaultInitExpr':
@@ -1197,11 +1227,33 @@ def check_counter(ctx, tu):
     rets = [x for b, i, x in g.stmts() if x.get('kind') == 'ReturnStmt']
     if any(k[0] in ('rmw', 'write') for k in kinds):
         ctx.violation(R2, inst, 'useCount modifies the counter', tu.fn_loc(fuse), key='%s|%s|RefCountedObject::useCount|writes' % (R2, file))
-    elif rets and all(tu.kids(r) and atomic_call(tu, tu.strip(tu.kids(r)[0], casts=True), counter_ids) == ('load',) for r in rets):
+    elif returns_load(tu, fuse, counter_ids):
         ctx.ok(R2, inst, 'returns an atomic load of the counter', tu.fn_loc(fuse))
     else:
         ctx.undecided(R2, inst, 'return value is not recognisably a load of the counter', tu.fn_loc(fuse))
     return n, counter_ids
+
+
+def returns_load(tu, fn, counter_ids, depth=0):
+    """every return of fn yields an atomic load of the counter, directly or through followed helpers that do"""
+    g = tu.cfg(fn)
+    if g is None or depth > 3:
+        return False
+    rets = [x for b, i, x in g.stmts() if x.get('kind') == 'ReturnStmt']
+    if not rets:
+        return False
+    for r in rets:
+        e = tu.strip(tu.kids(r)[0], casts=True) if tu.kids(r) else None
+        if e is None:
+            return False
+        if atomic_call(tu, e, counter_ids) == ('load',):
+            continue
+        cf = own_helper_call(tu, fn, e)
+        if cf is not None and returns_load(tu, cf, counter_ids, depth + 1) and not any(
+                (atomic_call(tu, x, counter_ids) or ('',))[0] in ('rmw', 'write') for b, i, x in tu.cfg(cf).stmts()):
+            continue
+        return False
+    return True
 
 
 def const_init(tu, init):
@@ -1227,20 +1279,39 @@ def const_init(tu, init):
     return None
 
 
+WRAPPER = {}               # id(tu) -> {'field': id of the RefCountedObject member, 'rec'/'recid': wrapper class} or None
 FOLLOWED_HELPERS = {}      # id(tu) -> ids of RefCountedObject helpers whose bodies were spliced into refInc/refDec
 
 
-def touches_counter(tu, fn, counter_ids):
+def own_helper_call(tu, fn, x):
+    """callee of x if x is a call, inside fn, of a member of the same class on *this, or of a member of the counter wrapper class on
+    this->counter (or on *this inside the wrapper class); else None"""
+    if x.get('kind') not in ('CXXMemberCallExpr', 'CXXOperatorCallExpr'):
+        return None
+    cf = tu.callee_fn(x)
+    if cf is None or cf['id'] == fn['id'] or tu.cfg(cf) is None:
+        return None
+    s_, obj, a_ = tu.call_parts(x)
+    if cf.get('recid') == fn.get('recid') and (obj is None or tu.is_this(obj)):
+        return cf
+    wr = WRAPPER.get(id(tu))
+    if wr and cf.get('recid') == wr['recid'] and obj is not None:
+        o = tu.strip(obj, casts=True)
+        if o is not None and o.get('kind') == 'MemberExpr' and tu.sd(o).get('d') == wr['field'] and (not tu.kids(o) or tu.is_this(tu.kids(o)[0])):
+            return cf
+    return None
+
+
+def touches_counter(tu, fn, counter_ids, depth=0):
     g = tu.cfg(fn)
-    if g is None:
+    if g is None or depth > 4:
         return False
     for b, i, x in g.stmts():
         if atomic_call(tu, x, counter_ids) or x.get('kind') == 'CXXDeleteExpr' or fence_mo(tu, x) is not None:
             return True
-        if x.get('kind') == 'CXXMemberCallExpr':
-            cf = tu.callee_fn(x)
-            if cf is not None and cf.get('recid') == fn.get('recid') and cf['id'] != fn['id'] and touches_counter(tu, cf, counter_ids):
-                return True
+        cf = own_helper_call(tu, fn, x)
+        if cf is not None and touches_counter(tu, cf, counter_ids, depth + 1):
+            return True
     return False
 
 
@@ -1261,11 +1332,9 @@ def expand_paths(tu, f, counter_ids, looped=False, depth=0, followed=None):
                 if x is None:
                     continue
                 sub = None
-                if x.get('kind') == 'CXXMemberCallExpr':
-                    cf = tu.callee_fn(x)
-                    s_, obj, a_ = tu.call_parts(x)
-                    if cf is not None and cf.get('recid') == f.get('recid') and cf['id'] != f['id'] and \
-                            (obj is None or tu.is_this(obj)) and touches_counter(tu, cf, counter_ids):
+                if x.get('kind') in ('CXXMemberCallExpr', 'CXXOperatorCallExpr'):
+                    cf = own_helper_call(tu, f, x)
+                    if cf is not None and touches_counter(tu, cf, counter_ids):
                         if depth >= 3 or tu.cfg(cf).back_edges() or cf.get('virt'):
                             sub = [[('U', 'call of %s at %s is not followed (depth / loop / virtual)' % (cf['q'], tu.loc(x)))]]
                         else:
@@ -1409,18 +1478,29 @@ def check_rmw_fn(ctx, tu, f, counter_ids, sign, file, followed=None):
                 if not rmw:
                     cond_seen_before_rmw = True
                 # does the condition read the counter again?
-                reread = [y for y in tu.walk(c) if atomic_call(tu, y, counter_ids) and atomic_call(tu, y, counter_ids)[0] == 'load']
-                # ... or through an own accessor whose body loads the counter (useCount())
-                for y in tu.walk(c):
-                    if y.get('kind') == 'CXXMemberCallExpr':
-                        cf = tu.callee_fn(y)
-                        if cf is not None and cf.get('recid') == f.get('recid') and tu.cfg(cf) is not None and any(
-                                atomic_call(tu, z, counter_ids) and atomic_call(tu, z, counter_ids)[0] == 'load'
-                                for _b, _i, z in tu.cfg(cf).stmts()):
-                            reread.append(y)
+                def rereads(expr):
+                    """loads of the counter in expr: direct, or through an accessor (of this class / the counter wrapper) whose body loads
+                    it without modifying it"""
+                    out_ = []
+                    wr_ = WRAPPER.get(id(tu))
+                    for y in tu.walk(expr):
+                        if not y.get('id'):
+                            continue
+                        ay = atomic_call(tu, y, counter_ids)
+                        if ay and ay[0] == 'load':
+                            out_.append(y)
+                        elif y.get('kind') == 'CXXMemberCallExpr':
+                            cf = tu.callee_fn(y)
+                            if cf is not None and (cf.get('recid') == f.get('recid') or (wr_ and cf.get('recid') == wr_['recid'])) and \
+                                    tu.cfg(cf) is not None:
+                                ops = [atomic_call(tu, z, counter_ids) for _b, _i, z in tu.cfg(cf).stmts()]
+                                if any(o_ and o_[0] == 'load' for o_ in ops) and not any(o_ and o_[0] in ('rmw', 'write') for o_ in ops):
+                                    out_.append(y)
+                    return out_
+                reread = rereads(c)
                 for vid, init in env_vars.items():
                     if any(y.get('kind') == 'DeclRefExpr' and y.get('referencedDecl', {}).get('id') == vid for y in tu.walk(c)):
-                        reread += [y for y in tu.walk(init) if atomic_call(tu, y, counter_ids) and atomic_call(tu, y, counter_ids)[0] == 'load']
+                        reread += rereads(init)
                 if reread and sign < 0:
                     problems.append(('separate-load', 'the decision to destroy the object reads the counter again (%s) instead of using the '
                                      'result of the decrement itself: two releasing threads can both observe 0 (double delete) or neither'
@@ -1433,6 +1513,10 @@ def check_rmw_fn(ctx, tu, f, counter_ids, sign, file, followed=None):
                     for new in sorted(feas):
                         res = new if a[2] == 'new' else new - a[1]
                         env = {x['id']: res}
+                        for cid, rexpr in binds:          # helper results may feed locals (const bool wasLast = counter.release())
+                            v = int_eval(tu, rexpr, env) if rexpr is not None else None
+                            if v is not None:
+                                env[cid] = v
                         for vid, init in env_vars.items():
                             v = int_eval(tu, init, env)
                             if v is not None:
@@ -1447,7 +1531,10 @@ def check_rmw_fn(ctx, tu, f, counter_ids, sign, file, followed=None):
                             break
                         if bool(v) == (taken == 0):
                             ok_vals.add(new)
-                    depends = any(y.get('id') in [cid for cid, r_ in binds] for y in tu.walk(c)) or \
+                    bound = [cid for cid, r_ in binds]
+                    depends = any(y.get('kind') == 'DeclRefExpr' and y.get('referencedDecl', {}).get('id') in env_vars and
+                                  any(z.get('id') in bound for z in tu.walk(env_vars[y['referencedDecl']['id']])) for y in tu.walk(c)) or \
+                        any(y.get('id') in [cid for cid, r_ in binds] for y in tu.walk(c)) or \
                         any(y.get('id') == x['id'] for y in tu.walk(c)) or any(
                         y.get('kind') == 'DeclRefExpr' and y.get('referencedDecl', {}).get('id') in env_vars and
                         any(z.get('id') == x['id'] for z in tu.walk(env_vars[y['referencedDecl']['id']])) for y in tu.walk(c))
@@ -1580,7 +1667,7 @@ def check_coverage(ctx, tu, seen_patterns, counter_ids, lib_tus):
             if file.startswith('verif:') or file.startswith('/verif') or '/drivers/' in file or file.startswith('drivers/'):
                 continue
             fids = field_ids if t is tu else {fd['id'] for r in t.records.values() if r.get('tmpl') == IP for fd in r['fields']}
-            cids = counter_ids if t is tu else set()
+            cids = (counter_ids | ({WRAPPER[id(tu)]['field']} if WRAPPER.get(id(tu)) else set())) if t is tu else set()
             tch = touches(t, f, fids, cids)
             if t is not tu:
                 # other units: match by qualified name of the member / callee
@@ -1599,6 +1686,15 @@ def check_coverage(ctx, tu, seen_patterns, counter_ids, lib_tus):
             n += 1
             own = f.get('rec') in (IP, RCO) or (not f.get('rec') and f['q'].startswith('rkcommon::memory::') and role_of(f) is not None)
             inst = '%s %s [%s]' % (f['q'], f['fty'], t.unit)
+            wr = WRAPPER.get(id(tu))
+            if t is tu and wr and f.get('rec') == wr['rec']:
+                # member of the class that wraps the atomic counter
+                if wr['rec'].startswith(RCO + '::') and not f.get('virt'):
+                    ctx.ok(R4, inst, 'member of the counter wrapper class nested in RefCountedObject: reachable only through this->%s in '
+                           'RefCountedObject\'s own members, which are analysed with these members followed' % wr['name'], t.fn_loc(f), nontrivial=False)
+                else:
+                    ctx.undecided(R4, inst, 'the counter is wrapped in a class that is not nested in RefCountedObject', t.fn_loc(f))
+                continue
             if own and t is tu:
                 known = (f.get('rec') == RCO and (f['q'] in (INC, DEC, USE) or f.get('ctor') or f.get('dtor'))) or \
                         (f.get('rec') != RCO and (role_of(f) is not None or is_private_helper(tu, f)))
